@@ -43,7 +43,9 @@ pub enum PasetoError {
   #[error("An unspecified ECSDA error occurred")]
   ECSDAError {
     ///An ECSDA cipher error
-    #[from]
+    // `p384::ecdsa::Error` and `ed25519_dalek::ed25519::Error` are both `signature::Error`, so only one
+    // `From` impl may be derived when both optional dependencies are enabled (see RsaCipher above).
+    #[cfg_attr(not(feature = "ed25519-dalek"), from)]
     source: p384::ecdsa::Error,
   },
   #[cfg(feature = "blake2")]
